@@ -175,3 +175,172 @@ Section QueryRows.
       rewrite flat_map_app, in_app_iff, Hr2, Hr1. tauto.
   Qed.
 End QueryRows.
+
+(* ------------------------------------------------------------ Part 3: values are zero without valuation *)
+
+Definition pvz (p : posting) : Prop := is_zero (p_val p) = true.
+Definition tvz (t : txn) : Prop := Forall pvz (t_postings t).
+
+Lemma pair_build_vz cr db com q : Forall pvz (pair_build cr db com q dec_nil).
+Proof.
+  unfold pair_build. destruct (is_neg q || is_zero q && is_neg dec_nil); repeat constructor;
+    unfold pvz; cbn [p_val]; rewrite ?is_zero_neg; reflexivity.
+Qed.
+
+Lemma postings_create_vz bs ps : postings_create bs = MOk ps -> Forall pvz ps.
+Proof.
+  revert ps. induction bs as [|b bs IH]; intros ps H; cbn in H.
+  - inversion H. constructor.
+  - destruct (check_account (b_credit b)); try discriminate. cbn in H.
+    destruct (check_account (b_debit b)); try discriminate. cbn in H.
+    destruct (postings_create bs) as [ps'| |]; try discriminate. cbn in H. inversion H.
+    apply Forall_app. split; [apply pair_build_vz|apply IH; reflexivity].
+Qed.
+
+Lemma accrual_parts_vz desc tg acc p amount rem n i ends :
+  Forall tvz (accrual_parts desc tg acc p amount rem n i ends).
+Proof.
+  revert i. induction ends as [|dt rest IH]; intros i; cbn [accrual_parts]; constructor.
+  - unfold tvz. cbn [t_postings]. apply pair_build_vz.
+  - apply IH.
+Qed.
+
+Lemma expand_posting_vz rebook t ac p l : expand_posting_gen rebook t ac p = MOk l -> Forall tvz l.
+Proof.
+  unfold expand_posting_gen. intros H.
+  assert (H1 : Forall tvz (if rebook (p_acc p)
+    then [mkTxn (t_date t) (t_desc t) (pair_build (ac_account ac) (p_acc p) (p_com p) (p_qty p) dec_nil) (t_targets t)]
+    else [])).
+  { destruct (rebook (p_acc p)); repeat constructor. unfold tvz; cbn. apply pair_build_vz. }
+  destruct (is_IE (p_acc p)).
+  - destruct (new_partition _ _ _); try discriminate.
+    destruct (quo_rem _ _ _) as [[amount rem]|]; try discriminate.
+    inversion H. apply Forall_app. split; [exact H1|apply accrual_parts_vz].
+  - inversion H; subst. exact H1.
+Qed.
+
+Lemma expand_postings_vz rebook t ac ps l : expand_postings_gen rebook t ac ps = MOk l -> Forall tvz l.
+Proof.
+  revert l. induction ps as [|p ps IH]; intros l H; cbn in H.
+  - inversion H. constructor.
+  - destruct (expand_posting_gen rebook t ac p) as [l1| |] eqn:E1; try discriminate. cbn in H.
+    destruct (expand_postings_gen rebook t ac ps) as [l2| |] eqn:E2; try discriminate. cbn in H. inversion H.
+    apply Forall_app. split; [eapply expand_posting_vz; eauto|apply IH; reflexivity].
+Qed.
+
+Lemma txn_create_vz s l : txn_create s = MOk l -> Forall tvz l.
+Proof.
+  unfold txn_create, txn_create_gen. intros H.
+  destruct (postings_create (st_bookings s)) as [ps| |] eqn:E; try discriminate. cbn in H.
+  destruct (st_accrual s) as [ac|].
+  - unfold expand_gen in H. destruct (check_account (ac_account ac)); try discriminate. cbn in H.
+    eapply expand_postings_vz; eauto.
+  - inversion H. repeat constructor. unfold tvz; cbn. eapply postings_create_vz; eauto.
+Qed.
+
+Definition pvals_zero (l : list (Z * posting)) : Prop := forall dp, In dp l -> pvz (snd dp).
+
+Lemma parse_directives_vz l ds : parse_directives l = MOk ds -> pvals_zero (flat_postings ds).
+Proof.
+  revert ds. induction l as [|s l IH]; intros ds H; cbn in H.
+  - inversion H. intros dp [].
+  - destruct (parse_directive s) as [d1| |] eqn:E1; try discriminate. cbn in H.
+    destruct (parse_directives l) as [d2| |] eqn:E2; try discriminate. cbn in H. inversion H; subst ds.
+    intros dp Hin. unfold flat_postings in Hin. rewrite map_app, concat_app in Hin. apply in_app_or in Hin.
+    destruct Hin as [Hin|Hin]; [|apply (IH d2 eq_refl); exact Hin].
+    destruct s; cbn in E1.
+    + inversion E1; subst. cbn in Hin. destruct Hin.
+    + destruct (check_account acc); try discriminate. inversion E1; subst. cbn in Hin. destruct Hin.
+    + destruct (check_account acc); try discriminate. inversion E1; subst. cbn in Hin. destruct Hin.
+    + destruct (check_balances bals); try discriminate. inversion E1; subst. cbn in Hin. destruct Hin.
+    + destruct (txn_create t) as [ts| |] eqn:E; try discriminate. cbn in E1. inversion E1; subst d1.
+      apply txn_create_vz in E. apply in_concat in Hin. destruct Hin as (lp & Hlp & Hin).
+      apply in_map_iff in Hlp. destruct Hlp as (dir & <- & Hdir). apply in_map_iff in Hdir. destruct Hdir as (t0 & <- & Ht0).
+      apply in_map_iff in Hin. destruct Hin as (p0 & <- & Hp0). cbn [snd].
+      rewrite Forall_forall in E. specialize (E _ Ht0). unfold tvz in E. rewrite Forall_forall in E. apply E. exact Hp0.
+    + inversion E1; subst. cbn in Hin. destruct Hin.
+Qed.
+
+(* ------------------------------------------------------------ Part 4: c_val stays zero *)
+
+Definition vals_zero (m : positions) : Prop := Forall (fun x : pentry => is_zero (snd (snd x)) = true) m.
+
+Lemma is_zero_add_zero a b : is_zero a = true -> is_zero b = true -> is_zero (add a b) = true.
+Proof. rewrite !is_zero_value, dvalue_add. intros -> ->. ring. Qed.
+
+Lemma pos_get0_vz m a c : vals_zero m -> is_zero (match pos_get m a c with Some x => x | None => dec_nil end) = true.
+Proof.
+  intros H. unfold pos_get. destruct (sm_get m (pos_key a c)) as [[[a0 c0] q0]|] eqn:E; [|reflexivity].
+  apply sm_get_some_in in E. unfold vals_zero in H. rewrite Forall_forall in H. exact (H _ E).
+Qed.
+
+Lemma pos_add_vz m a c x : vals_zero m -> is_zero x = true -> vals_zero (pos_add m a c x).
+Proof.
+  intros Hm Hx. unfold pos_add. unfold vals_zero. rewrite Forall_forall. intros y Hy.
+  apply sm_put_in in Hy. destruct Hy as [->|Hy].
+  - cbn [snd]. apply is_zero_add_zero; [apply pos_get0_vz; exact Hm|exact Hx].
+  - unfold vals_zero in Hm. rewrite Forall_forall in Hm. apply Hm. exact Hy.
+Qed.
+
+Lemma close_postings_vz t : forall ps s s' ps',
+  vals_zero (c_val s) -> Forall pvz ps -> fold_postings close_posting t s ps = ROk (s', ps') -> vals_zero (c_val s').
+Proof.
+  induction ps as [|p ps IH]; intros s s' ps' Hv Hp H; cbn [fold_postings] in H.
+  - inversion H; subst. exact Hv.
+  - inversion Hp as [|? ? Hp1 Hp2]; subst.
+    destruct (close_posting s t p) as [[s1 p1]| |] eqn:E1; try discriminate. cbn [rbind fst snd] in H.
+    destruct (fold_postings close_posting t s1 ps) as [[s2 ps2]| |] eqn:E2; try discriminate.
+    cbn [rbind fst snd] in H. inversion H; subst s' ps'.
+    apply (IH s1 s2 ps2); [|exact Hp2|exact E2].
+    unfold close_posting in E1. destruct (is_AL (p_acc p) || acc_eqb (p_acc p) equity_account); inversion E1; subst; [exact Hv|].
+    cbn [c_val]. apply pos_add_vz; assumption.
+Qed.
+
+Lemma close_txns_vz cds : forall ts s s' ts',
+  vals_zero (c_val s) -> Forall tvz ts -> fold_txns (close_proc cds) s ts = ROk (s', ts') -> vals_zero (c_val s').
+Proof.
+  induction ts as [|t ts IH]; intros s s' ts' Hv Ht H; cbn [fold_txns] in H.
+  - inversion H; subst. exact Hv.
+  - inversion Ht as [|? ? Ht1 Ht2]; subst.
+    cbn [close_proc pr_txn pr_posting rbind] in H.
+    destruct (fold_postings close_posting t s (t_postings t)) as [[s1 ps1]| |] eqn:E1; try discriminate.
+    cbn [rbind fst snd] in H.
+    destruct (fold_txns (close_proc cds) s1 ts) as [[s2 ts2]| |] eqn:E2; try discriminate.
+    cbn [rbind fst snd] in H. inversion H; subst s' ts'.
+    apply (IH s1 s2 ts2); [|exact Ht2|exact E2]. eapply close_postings_vz; eauto.
+Qed.
+
+Lemma closing_txns_vz date vs : vals_zero vs -> forall m, Forall tvz (closing_txns date m vs).
+Proof.
+  intros Hv. induction m as [|[k0 [[a c] qy]] m IH]; cbn [closing_txns]; [constructor|].
+  destruct (is_zero qy && is_zero _); [exact IH|]. constructor; [|exact IH].
+  unfold tvz. cbn [t_postings]. pose proof (pos_get0_vz vs a c Hv) as Hz. unfold pair_build.
+  destruct (is_neg qy || is_zero qy && is_neg _); repeat constructor; unfold pvz; cbn [p_val]; rewrite ?is_zero_neg; exact Hz.
+Qed.
+
+Lemma pvals_tvz ts : pvals_zero (txns_postings ts) -> Forall tvz ts.
+Proof.
+  intros H. rewrite Forall_forall. intros t Ht. unfold tvz. rewrite Forall_forall. intros p Hp.
+  apply (H (t_date t, p)). unfold txns_postings. apply in_concat. exists (map (fun p0 => (t_date t, p0)) (t_postings t)).
+  split; [apply in_map_iff; exists t; split; [reflexivity|exact Ht]|apply in_map; exact Hp].
+Qed.
+
+Lemma close_day_vz cds s d s' d' :
+  vals_zero (c_val s) -> pvals_zero (day_postings d) -> process_day (close_proc cds) s d = ROk (s', d') -> vals_zero (c_val s').
+Proof.
+  intros Hv Hp H. unfold process_day in H.
+  cbn [close_proc pr_day_start pr_price pr_open pr_balance pr_close pr_day_end] in H.
+  unfold close_day_start in H.
+  assert (Ha : forall l s0, fold_asserts (close_proc cds) s0 l = ROk s0).
+  { induction l as [|a l IHl]; intros s0; cbn [fold_asserts close_proc pr_balance rbind]; [reflexivity|apply IHl]. }
+  apply pvals_tvz in Hp.
+  destruct (existsb (Z.eqb (d_date d)) cds); cbn [rbind fst snd] in H.
+  - cbn [set_txns d_txns d_date d_prices d_opens d_asserts d_closes d_normalized] in H.
+    destruct (fold_txns (close_proc cds) s (d_txns d ++ closing_txns (d_date d) (c_qty s) (c_val s))) as [[s1 ts1]| |] eqn:E1;
+      try discriminate.
+    cbn [rbind fst snd] in H. rewrite Ha in H. cbn [rbind] in H. inversion H; subst s' d'.
+    eapply close_txns_vz; [exact Hv| |exact E1]. apply Forall_app. split; [exact Hp|apply closing_txns_vz; exact Hv].
+  - destruct (fold_txns (close_proc cds) s (d_txns d)) as [[s1 ts1]| |] eqn:E1; try discriminate.
+    cbn [rbind fst snd] in H. rewrite Ha in H. cbn [rbind] in H. inversion H; subst s' d'.
+    eapply close_txns_vz; eauto.
+Qed.
